@@ -586,6 +586,7 @@ func TestVerifC20(t *testing.T) {
 
 	if part == "serve" {
 		c20StartupFailure(r)
+		c20ServeAgain(r)
 	}
 	// part serve / race: scripted tasks under the real Serve
 	dir, err := os.MkdirTemp("", "verif-c20-")
@@ -866,4 +867,53 @@ func c20Subscribed(srv *Server) (map[string]bool, bool) {
 		}
 	}
 	return nil, false
+}
+
+// c20ServeAgain: one Server serves several times in a row (a supervisor loop
+// around Serve), each time stopped by another signal: what a task reads about
+// terminate-or-reload when it observes the cancellation is the decision of THIS
+// run's signal, not a leftover of an earlier run.
+func c20ServeAgain(r *vlib.Run) {
+	seqs := [][]os.Signal{
+		{syscall.SIGHUP, syscall.SIGTERM, syscall.SIGHUP, os.Interrupt},
+		{syscall.SIGTERM, syscall.SIGHUP, syscall.SIGHUP, syscall.SIGTERM},
+		{os.Interrupt, syscall.SIGTERM, syscall.SIGHUP},
+	}
+	for si, seq := range seqs {
+		id := fmt.Sprintf("serve-again/%d", si)
+		if !r.Mine(id) {
+			continue
+		}
+		r.Begin(id)
+		r.Nontrivial(id)
+		srv := NewServer(NewContext(log.New(io.Discard, "", 0), nil, system.TestState{}))
+		term := c20TerminateFunc(r, srv)
+		for k, sig := range seq {
+			lg := &c20Log{}
+			task := &c20Task{name: "task", run: "block", stop: "prompt", ready: "now", lg: lg, term: term,
+				readyC: make(chan struct{}), trigger: make(chan struct{}), stopGate: make(chan struct{})}
+			sigC := make(chan os.Signal, 1)
+			done := make(chan error, 1)
+			go func() { done <- srv.Serve(sigC, nil, []Task{task}) }()
+			if !c20WaitFor(func() bool { return lg.has("run_enter task") }, 5*time.Second) {
+				r.Inconclusive(id, "the task did not start within 5 s")
+				break
+			}
+			sigC <- sig
+			var err error
+			select {
+			case err = <-done:
+			case <-time.After(40 * time.Second):
+				r.Inconclusive(id, "Serve had not returned 40 s after the signal")
+				return
+			}
+			want := fmt.Sprint(sig != syscall.SIGHUP)
+			if err != nil || !lg.has("terminate_read_after task "+want) {
+				r.Violation(id, "terminate-flag-late", fmt.Sprintf("run %d of the same server, stopped by %v: Serve returned %v and the task read %q after the cancellation (want terminate=%s)", k+1, sig, err, lg.snapshot(), want),
+					map[string]any{"signals": fmt.Sprint(seq)})
+				break
+			}
+			r.Count("repeated_serve_runs_checked", 1)
+		}
+	}
 }
